@@ -112,6 +112,8 @@ def run(ctx):
         deep_ids(ctx, fxs)
     if ctx.shard == 1 % ctx.nshards:
         descriptor_ids(ctx, fxs)
+    if ctx.shard == 2 % ctx.nshards:
+        reentrant_ids(ctx)
     # (c) matrix slice
     size = reqgen.matrix_size()
     step = ctx.pick(11, 5)
@@ -204,6 +206,62 @@ def descriptor_ids(ctx, fxs):
                             if not gen.teq(rest, [41, "n2"]):
                                 ctx.violate("id:neighbours-of-a-class-descriptor-id-lose-their-ids", case,
                                             {"ids": [o.get("id") for o in objs]})
+
+
+def reentrant_ids(ctx):
+    """Registered callables that use the dispatcher they are served by (a relay / fan-out method handing a request text
+    to the same dispatcher on the same thread): the outer response still carries the outer id - on success, when the
+    relaying method raises afterwards, and whatever the inner request was (call, batch, notification, failing call)."""
+    for v in (2.0, 1.0):
+        box = {}
+
+        def relay(text):
+            out = box["fx"].dispatcher._marshaled_dispatch(text)
+            return json.loads(out) if out else None
+
+        def relayfail(text):
+            box["fx"].dispatcher._marshaled_dispatch(text)
+            raise ValueError("after the inner request")
+        fx = dm.Fixture(dm.std_reg("default"), version=v, extra={"relay": relay, "relayfail": relayfail})
+        box["fx"] = fx
+        inner = {"call": {"jsonrpc": "2.0", "id": "inner", "method": "echo", "params": [1]},
+                 "batch": [{"jsonrpc": "2.0", "id": 71, "method": "echo"}, {"jsonrpc": "2.0", "id": 72, "method": "fail"}],
+                 "notification": {"jsonrpc": "2.0", "method": "echo", "params": [2]},
+                 "failing": {"id": 9, "method": "fail"}, "invalid": {"jsonrpc": "2.0", "id": 13, "method": 5},
+                 "malformed": None}
+        outer_ids = ["a", 5, 6.5, [1], {"k": 0}, 0, False, "", None]
+        n = 0
+        for kind, ibody in inner.items():
+            itext = '{"jsonrpc": "2.0", "method"' if ibody is None else json.dumps(ibody)
+            for method in ("relay", "relayfail"):
+                for two in (True, False):
+                    entries = []
+                    for oid in outer_ids[:7]:
+                        e = {"method": method, "params": [itext], "id": oid}
+                        if two:
+                            e["jsonrpc"] = "2.0"
+                        entries.append(e)
+                    plain = {"jsonrpc": "2.0", "id": "plain", "method": "echo", "params": [0]}
+                    for label, body, want in [("single-%d" % i, e, [e["id"]]) for i, e in enumerate(entries)] + \
+                            [("batch", [plain] + entries + [dict(plain, id="last")],
+                              ["plain"] + [e["id"] for e in entries] + ["last"])]:
+                        n += 1
+                        case = {"config": [v, "default"], "bclass": "re-entrant-dispatch", "inner": kind, "method": method,
+                                "body": json.dumps(body)}
+                        ctx.case(("re-entrant", v, kind, method, two, label), nontrivial=True)
+                        ctx.count("judged:re-entrant-dispatch")
+                        obs = dm.drive(fx, json.dumps(body))
+                        if obs.raised is not None:
+                            continue  # C02's concern
+                        val = obs.parsed
+                        objs = [val] if isinstance(val, dict) else val if isinstance(val, list) else []
+                        got = [o.get("id") if isinstance(o, dict) else "<not an object>" for o in objs]
+                        if len(got) != len(want):
+                            ctx.violate("count:re-entrant-dispatch-changes-the-number-of-responses", case,
+                                        {"ids": got, "expected": want})
+                        elif not gen.teq(got, want):
+                            ctx.violate("id:outer-response-carries-another-id-after-a-re-entrant-dispatch:%s" % kind, case,
+                                        {"ids": got, "expected": want})
 
 
 def finalize(m, tier):
